@@ -70,7 +70,9 @@ void harness(void)
 	if (ret != 0) {
 		VERIF_ASSERT(g_alloc_failed > 0, C19_OB("succeeds"));
 		VERIF_ASSERT(g_live == live0 && dst.data == NULL, C19_OB("oom"));
+#if N > 0
 		VERIF_COVER(1);
+#endif
 	} else {
 		ddata = dst.data;
 		VERIF_ASSERT(g_alloc_failed == 0, C19_OB("succeeds"));
